@@ -200,7 +200,7 @@ def run_model(ctx, module, cfg=None, workers=NCPU, timeout=1500, extra=(), expec
 
 def event_key(ev):
     """Stable identity of a call: the event without results/probes."""
-    drop = {"probes", "gexp", "hints", "nontriv", "sol", "sol2same", "argsSame", "out", "ok", "uni", "chk", "res", "res2same", "res2", "det", "a2", "a2int", "b", "pip", "removed", "vars", "i", "u", "d", "x", "d2", "us", "uc", "us2", "nverts", "flat", "tree", "solOpen", "onProbes", "solSwap", "hasSwap", "r64", "rd9", "t64", "td", "qa", "qb", "xa", "xb", "beams", "resSet", "kv", "solClosed"}
+    drop = {"probes", "gexp", "hints", "nontriv", "sol", "sol2same", "argsSame", "out", "ok", "uni", "chk", "res", "res2same", "res2", "det", "a2", "a2int", "b", "pip", "removed", "vars", "i", "u", "d", "x", "d2", "us", "uc", "us2", "nverts", "flat", "tree", "solOpen", "onProbes", "solSwap", "hasSwap", "r64", "rd9", "t64", "td", "qa", "qb", "xa", "xb", "beams", "resSet", "kv", "solClosed", "resSet2", "idx", "counts", "mapOK"}
     core = {k: v for k, v in ev.items() if k not in drop and not k.startswith("r_")}
     return hashlib.sha1(json.dumps(core, sort_keys=True).encode()).hexdigest()[:16]
 
